@@ -365,3 +365,13 @@
 (declare-fun url.str (Ref) Str)
 ; what io.ReadAll reads from a request body reader
 (declare-fun io.content (Iface) Bytes)
+
+;@module walletdb strings
+; Ghost model of the wallet's NUT-13 counters (DESIGN.md §5.3):
+;   wdb.counter[k]      the counter stored for keyset k (storage.WalletDB)
+;   wal.derivedupto[k]  end of the counter range the wallet last derived outputs from
+;   wal.signedupto[k]   every counter below it may have been signed by a mint:
+;                       raised to derivedupto by every request that has outputs signed
+;@ghost wdb.counter (Array Str Int)
+;@ghost wal.derivedupto (Array Str Int)
+;@ghost wal.signedupto (Array Str Int)
